@@ -69,7 +69,7 @@ theorem Step.coarse {z : Z} {r : Token × Z} (h : Step z r) :
       ((LF ∉ cons ∧ r.2.line = z.line ∧ r.1.ty ≠ .newline) ∨
        (∃ sp, cons = sp ++ [LF] ∧ LF ∉ sp ∧ r.2.line = z.line + 1 ∧ r.2.col = 1 ∧ r.2.atStart = true ∧
           r.1.ty = .newline)) := by
-  have nosp : ∀ sp : Bytes, (∀ c ∈ sp, c = 0x20) → LF ∉ sp := by
+  have nosp : ∀ sp : Bytes, (∀ c ∈ sp, isBlank c = true) → LF ∉ sp := by
     intro sp hsp hm
     exact absurd (hsp _ hm) (by decide)
   cases h with
